@@ -1163,7 +1163,37 @@ func runShard(reqs []Req, probe Req, add func(Finding), mu *sync.Mutex, codes ma
 		rs, ok := ch.send(rq)
 		routeName := strings.SplitN(rq.Label, "|", 2)[0]
 		if !ok {
-			// the child died (or stopped answering): crash
+			if _, m := crashSignature(ch.stderr.String()); m == "" {
+				// no answer and no Go crash report (panic / fatal error): an overloaded machine, the out-of-memory killer or a
+				// body of absurd size, not evidence of a crash - try once more on a fresh child with generous limits
+				ch.kill()
+				mu.Lock()
+				*restarts++
+				mu.Unlock()
+				if ch, err = startChild(); err != nil {
+					mu.Lock()
+					*infra = append(*infra, err.Error())
+					mu.Unlock()
+					break
+				}
+				ch.send(probe)
+				again := rq
+				again.TimeoutS = 25
+				if rs2, ok2 := ch.send(again); ok2 {
+					mu.Lock()
+					codes["answered-on-second-try:"+routeName]++
+					mu.Unlock()
+					rs, ok = rs2, true
+				} else if _, m2 := crashSignature(ch.stderr.String()); m2 == "" {
+					mu.Lock()
+					*infra = append(*infra, fmt.Sprintf("request %q: the child stopped answering twice without a Go crash report (killed from outside or out of time)", rq.Label))
+					mu.Unlock()
+					break
+				}
+			}
+		}
+		if !ok {
+			// the child died with a crash report: crash
 			ch.kill()
 			fn, msg := crashSignature(ch.stderr.String())
 			tail := ch.stderr.String()
